@@ -12,6 +12,8 @@
    and library instead (no wrappers): the released-binary oracle.  */
 
 #include <crypt.h>
+#include <ctype.h>
+#include <locale.h>
 #include <errno.h>
 #include <limits.h>
 #include <pthread.h>
@@ -870,12 +872,16 @@ cmd_crypt (int argc, char **argv)
   /* n = the setting is stored in data->setting but NULL is passed; m = the phrase is stored in data->input but
      NULL is passed (a NULL argument must fail whatever the object's fields hold) */
   int null_set = (argmode == 'n'), null_phr = (argmode == 'm');
-  int set_in = (argmode == 'i' || argmode == 'g' || null_set), phr_in = (argmode == 'i' || argmode == 'p' || null_phr);
+  /* k = the phrase is data->input AS THE PREVIOUS CALL LEFT IT (crypt.h invites applications to keep the phrase
+     there; the library must not have touched it), the setting is a separate buffer */
+  int keep_in = (argmode == 'k');
+  int set_in = (argmode == 'i' || argmode == 'g' || null_set), phr_in = (argmode == 'i' || argmode == 'p' || null_phr || keep_in);
   if (full)
     {
       if (set_in) memcpy (cd->setting, setting, (size_t) sl + 1);
       else canary_fill ((unsigned char *) cd->setting, sizeof cd->setting, nonce);
-      if (phr_in) memcpy (cd->input, phrase, (size_t) pl + 1);
+      if (keep_in) ;
+      else if (phr_in) memcpy (cd->input, phrase, (size_t) pl + 1);
       else canary_fill ((unsigned char *) cd->input, sizeof cd->input, nonce + 77);
 #ifdef VW_MSAN
       __msan_unpoison (snap, sizeof snap);
@@ -1627,6 +1633,12 @@ handle (char *line)
       g_ledger_errs = 0;
 #endif
       out_printf ("ok");
+    }
+  else if (!strcmp (c, "setlocale") && argc >= 2)
+    {
+      /* setlocale <name>: what login/su/passwd do before they hash (LOCPATH comes from the environment) */
+      const char *r = setlocale (LC_ALL, argv[1]);
+      out_printf ("ok set=%d graph_e9=%d alpha_e9=%d", r != 0, isgraph (0xe9) != 0, isalpha (0xe9) != 0);
     }
   else if (!strcmp (c, "munmaperrno") && argc >= 2)
     {
